@@ -732,3 +732,17 @@ func siteName(site int) string {
 	}
 	return fmt.Sprintf("site%d", site)
 }
+
+// Abandon gives up every unfinished task (their goroutines stay blocked
+// forever): used after a hang verdict so that the run can go on with other work.
+func (s *Sched) Abandon() {
+	s.absorb()
+	for _, t := range s.tasks {
+		if t.state != tsDone {
+			t.state = tsDone
+		}
+	}
+	s.cur = nil
+	s.locks = map[unsafe.Pointer]*Task{}
+	s.abort = false
+}
